@@ -76,11 +76,29 @@ def run(ctx, rep):
                 ty = 'Array'
         if ty is None and 'object::Object::try_int' in str(v):
             ty = 'Int'
-        if v[0] == 'mlocal' or ty is None:
-            # follow a local `obj`
-            d = f.defs().get(v[1], []) if v[0] == 'mlocal' else []
-            ty = ty or 'unknown'
-        P.setdefault(ty, []).append(span_loc(t['span']))
+        tys = {ty} if ty else set()
+        if ty is None:
+            # the value flows through locals with several definitions (`let folded = match .. { .. }`): the constructors found in
+            # all of them
+            from rules import psc as _psc
+            seen_l, todo = set(), list(_psc.mlocals(v))
+            while todo and len(seen_l) < 12:
+                l_ = todo.pop()
+                if l_ in seen_l or 1 <= l_ <= f.arg_count:
+                    continue
+                seen_l.add(l_)
+                for d in f.defs().get(l_, []):
+                    vals = [('call', callee_name(d[2]), tuple(sym(f, a) for a in d[2]['args']))] if d[0] == 'call' else \
+                        ([sym(f, o_) for o_ in d[3]['ops']] if d[3]['k'] == 'aggregate' else [_psc.sym_rv(f, d[3])])
+                    for x_ in vals:
+                        s_ = str(x_)
+                        for key_, ty_ in (('object::Object::int', 'Int'), ('object::Object::try_int', 'Int'), ('object::Object::float', 'Float'),
+                                          ('object::Object::function', 'Function'), ('FromString', 'String'), ('FromVec', 'Array')):
+                            if key_ in s_:
+                                tys.add(ty_)
+                        todo += list(_psc.mlocals(x_))
+        for ty in (tys or {'unknown'}):
+            P.setdefault(ty, []).append(span_loc(t['span']))
     from rules import psc
     reach = psc.reachable(ctx, with_bin=False)
     M = {}
@@ -135,6 +153,8 @@ def run(ctx, rep):
         rep.good('R10.4', 'vm::VM::run', 'pooled %s' % ty, 'values of this type are never mutated in place', 'src/vm.rs')
     # R10.5
     check_dedup(ctx, rep, 'R10.5')
+    rep.rule('R10.7', 'pooled constants are the payloads of literal nodes as written: the compiler does no arithmetic of its own on them')
+    check_literal_constants(ctx, rep, 'R10.7')
     rep.rule('R10.6', 'operands of the fused instructions are not truncated (a constant index that does not fit selects another constant)')
     from rules import c02
     c02.check_casts(ctx, rep, 'R10.6', only=('compiler::Compiler::compile_const_var_infix_expression', 'compiler::Compiler::add_constant'))
@@ -165,3 +185,49 @@ def check_dedup(ctx, rep, rule):
         rep.ob(ok, rule, 'compiler::Compiler::add_constant', 'dedup predicate path %d' % n,
                'a path that can report "same constant" must compare both tags and then Object::eq; this one returns %s after calls %s' % (show(r)[:80], [x.split('::')[-1] for x in names]), fn.loc())
     rep.count('dedup_true_paths', n)
+
+
+def check_literal_constants(ctx, rep, rule):
+    """A value computed by the compiler instead of by the VM (constant folding) has to agree with the run-time operator on every
+    input - overflow, -0.0 vs 0.0 under the pool's de-duplication, NaN - which nothing here can show.  The rule therefore keeps the
+    status quo explicit: what enters the constant pool is an Object built directly from a literal payload of the syntax tree (or a
+    function descriptor), with no unary/binary operator applied to it at compile time."""
+    F = ctx.facts()
+    n = 0
+    for f, b, t in F.callers_of(lambda p: p == 'compiler::Compiler::add_constant'):
+        n += 1
+        v = sym(f, t['args'][1])
+        ops = []
+
+        def walk(x, depth=0):
+            if not isinstance(x, tuple) or depth > 12:
+                return
+            if x and x[0] in ('binop', 'checked') and x[1] not in ('Shl', 'BitOr', 'BitAnd', 'Shr'):
+                ops.append(x[1])
+            if x and x[0] == 'unop' and x[1] in ('Neg', 'Not'):
+                ops.append(x[1])
+            if x and x[0] == 'call' and x[1].endswith(('::neg', '::add', '::sub', '::mul', '::div', '::rem', '::checked_neg', '::checked_add', '::checked_sub',
+                                                         '::checked_mul', '::wrapping_neg', '::abs', '::pow', '::powi', '::powf')):
+                ops.append(x[1].split('::')[-1])
+            for y in x:
+                if isinstance(y, tuple):
+                    walk(y, depth + 1)
+        walk(v)
+        # multi-definition locals the value flows through (`let folded = match .. { .. => Some(-x), .. }`): every definition counts
+        from rules import psc as _psc
+        seen_l = set()
+        todo = list(_psc.mlocals(v))
+        while todo and len(seen_l) < 12:
+            l_ = todo.pop()
+            if l_ in seen_l or 1 <= l_ <= f.arg_count:
+                continue
+            seen_l.add(l_)
+            for d in f.defs().get(l_, []):
+                vals = [sym(f, a) for a in d[2]['args']] if d[0] == 'call' else [_psc.sym_rv(f, d[3])]
+                if d[0] == 'assign' and d[3]['k'] == 'aggregate':
+                    vals = [sym(f, o_) for o_ in d[3]['ops']]
+                for x_ in vals:
+                    walk(x_)
+                    todo += list(_psc.mlocals(x_))
+        rep.ob(not ops, rule, f.path, 'constant#%d' % n, 'the pooled value is a literal payload as written (operators applied at compile time: %s)' % sorted(set(ops)), span_loc(t['span']))
+    rep.count('pooled_constant_sites', n)
